@@ -93,6 +93,7 @@ class D(RenderDriver):
             except Exception:
                 return None
         root = meta["root"]
+        sim0 = None
         try:
             sim0 = gd.simulate_inherited_made_explicit(root)
             if sim0 is not None:
@@ -104,20 +105,29 @@ class D(RenderDriver):
                     return "inherited-value-made-explicit-on-use-target"
         except Exception:
             pass
-        for mech in ("root-opacity-dropped", "explicit-equal-inherited-dropped-on-use"):
-            if mech == "root-opacity-dropped" and "opacity" not in gd.own_props(root):
-                continue
-            if mech.startswith("explicit") and not gd.redundant_explicit(root):
-                continue
-            try:
-                sim = RR.build(simulate(root, mech))
-                dst = RR.build(out)
-                rng = random.Random(1)
-                eps = self.eps_frac * 100
-                pts = conv.sample_points(sim, rng, eps=eps) + [mismatch[0]]
-                st = conv.compare_colors(sim, dst, pts, eps, self.color_tol)
-                if st["mismatch"] is None and st["kept"] >= 30:
-                    return mech
-            except Exception:
-                continue
+        # the known mechanisms one by one, then on top of the inherited-made-explicit simulation (two of them can act
+        # on one document; the output must then match the source with both simulated)
+        bases = [(root, None)]
+        try:
+            if sim0 is not None:
+                bases.append((sim0, "inherited-value-made-explicit-on-use-target"))
+        except NameError:
+            pass
+        for base, base_mech in bases:
+            for mech in ("root-opacity-dropped", "explicit-equal-inherited-dropped-on-use"):
+                if mech == "root-opacity-dropped" and "opacity" not in gd.own_props(base):
+                    continue
+                if mech.startswith("explicit") and not gd.redundant_explicit(base):
+                    continue
+                try:
+                    sim = RR.build(simulate(base, mech))
+                    dst = RR.build(out)
+                    rng = random.Random(1)
+                    eps = self.eps_frac * 100
+                    pts = conv.sample_points(sim, rng, eps=eps) + [mismatch[0]]
+                    st = conv.compare_colors(sim, dst, pts, eps, self.color_tol)
+                    if st["mismatch"] is None and st["kept"] >= 30:
+                        return base_mech or mech
+                except Exception:
+                    continue
         return None
